@@ -237,7 +237,7 @@ package bondmachine
 //@        j.Shared_constraints == d.Shared_constraints && j.Threaded == d.Threaded &&
 //@        len(j.Slocs) == len(d.Slocs) && (forall k int :: 0 <= k && k < len(d.Slocs) ==> j.Slocs[k] == d.Slocs[k]) &&
 //@        len(j.Vars) == len(d.Vars) && (forall k int :: 0 <= k && k < len(d.Vars) ==> j.Vars[k] == d.Vars[k]) &&
-//@        len(j.Op) == len(d.Op)
+//@        len(j.Op) == len(d.Op) && fresh(j.Modes) && fresh(j.Slocs) && fresh(j.Vars) && fresh(j.Op)
 
 //@ interface Shared_instance method String() string
 //@   pure
